@@ -20,12 +20,21 @@ META = {
                    "length is the largest position tileable by spellings, extended to the whole input exactly when completion "
                    "is on and ExpandSearch yields a normal/fuzzy spelling beginning with the remainder; every tiling of the "
                    "interpreted prefix by normal spellings is a path carrying those syllables with type normal; indices is "
-                   "the transpose of edges with end positions strictly descending. No bound on prism, input or alphabet."),
+                   "the transpose of edges with end positions strictly descending; completion_iff_loaded / completion_if_loaded: when "
+                   "ExpandSearch walks the alphabet of a Load()ed prism (all characters of all spellings, digits / punctuation / upper case "
+                   "included, spelling map or not) and stays below its limit of 512, that condition is exactly 'the remainder begins a "
+                   "stored spelling with a normal or fuzzy reading', and then the whole input is interpreted. No bound on prism, input "
+                   "or alphabet."),
     "level_note": ("Outside the theorems: that the hand-written model equals the C++ — tied by running the real "
                    "Prism::Build/Save/Load + Syllabifier on generated syllabaries with and without spelling algebra and "
                    "comparing the complete graph (lengths, vertices with types, every edge property incl. the exact double "
                    "credibility, indices in list order) with the compiled model for all inputs up to a length bound over "
-                   "alphabet+delimiters x {completion, strict} and random longer inputs; darts-clone / the prism file "
+                   "alphabet+delimiters x {completion, strict}, random longer inputs and inputs derived from the spellings, incl. prisms whose "
+                   "spellings use characters outside a-z in every build mode x {Save+Load, Build only} and chains of 9-16 nested "
+                   "spellings; which alphabet ExpandSearch walks is part of the model (searchAlphabet: stored alphabet for a loaded prism, "
+                   "a-z for an object that only ran Build — format_ stays 0.0 there), the harness passes only the spec's own load flag "
+                   "and the stored alphabet is compared; the monitor checks BOTH directions of the completion clause with plain string "
+                   "tests; darts-clone / the prism file "
                    "(the model takes the prism as the table its accessor enumerates, C09 covers the prism itself); the "
                    "corrector (off by default, not modelled); pointer identity of indices entries (monitored in the harness). "
                    "Reading of the property fixed in DESIGN §3 C08: pruning may drop abbreviation-typed syllables when a "
